@@ -3,7 +3,7 @@ import random
 from engine.h4v import H, libhdf_units
 
 META = dict(
-    bounds=["S1: 4 annotations per history over 2 objects x 4 annotation types, text lengths 0..10, optional rewrite (longer/shorter), reopen; texts symbolic bytes"],
+    bounds=["S1: 4 annotations per history over 2 objects x 4 annotation types, text lengths 1..10 (zero-length annotations are refused by the library: Hwrite of length 0 is an error), optional rewrite (longer/shorter), reopen; texts symbolic bytes"],
     stubs=["stdio = models/memio.c", "error stack = codes only", "malloc never fails"],
     outside=["more than 4 annotations per file", "the single-file DFAN interface (see C15)"],
     manifest=dict(
@@ -30,7 +30,7 @@ def curated():
     S.append(inst("two-per-object", [1, 1, 0, 0], [1000, 1000, 1000, 1000], [1, 1, 2, 1], [3, 6, 2, 5], [8, -1, -1, 1]))
     S.append(inst("rewrite-grow-shrink", [1, 0, 3, 2], [1000, 1000, 0, 0], [2, 2, 0, 0], [4, 4, 6, 3], [10, 2, 1, 9]))
     S.append(inst("short-buffer", [0, 1, 2, 3], [1000, 1000, 0, 0], [1, 2, 0, 0], [5, 6, 5, 6], [-1, -1, -1, -1], shortbuf=3))
-    S.append(inst("empty-texts", [1, 3, 1, 0], [1000, 0, 1000, 1000], [1, 0, 2, 2], [0, 0, 5, 1], [-1, 4, 0, -1]))
+    S.append(inst("one-byte-texts", [1, 3, 1, 0], [1000, 0, 1000, 1000], [1, 0, 2, 2], [1, 1, 5, 1], [-1, 4, 1, -1], shortbuf=1))
     return S
 
 def plan(ctx, tier, seed):
